@@ -1010,7 +1010,7 @@ def bounded(payload):
         if info.get("run_checked"):
             parts["pairs_run_fused_vs_alone"] += 1
         if info.get("run_out_of_domain"):
-            parts["pairs_not_run_persistent_sets_interfere"] += 1
+            parts["pairs_run_clause_not_applicable"] += 1
         parts["shared_loop_identifier_only_not_counted"] += info.get("shared_loop_identifier_only", 0)
         if not fails:
             parts["pairs_all_clauses_hold"] += 1
@@ -1085,5 +1085,5 @@ def bounded(payload):
                     "persistent read/write sets do not interfere); distinct non-trivial = distinct pairs in which "
                     "fusion renamed at least one name" % (" (every 2nd)" if tier == "quick" else ""),
             "bound": "<=2 phases (+1 one-sided), <=12 statements per phase, expression depth <=2, 2 steps",
-            "samples": samples, "failures": failures[:20], "known_hits": known_hits, "parts": dict(parts),
+            "samples": samples, "failures": sorted(failures, key=lambda f: bool(f["matches_fingerprints"]))[:20], "known_hits": known_hits, "parts": dict(parts),
             "exhaustive": False}
